@@ -355,12 +355,17 @@ func (g *SchemaGen) objectSchema(depth int) map[string]any {
 	}
 	if !g.O.NoDeps && g.R.P(0.2) {
 		deps := map[string]any{}
-		if g.R.Bool() {
-			deps[g.name()] = []any{g.name()}
-			g.feat("dependencies:names")
-		} else {
-			deps[g.name()] = g.Schema(depth + 1)
-			g.feat("dependencies:schema")
+		for i, n := 0, g.R.Range(1, 3); i < n; i++ {
+			if g.R.Bool() {
+				deps[g.name()] = []any{g.name()}
+				g.feat("dependencies:names")
+			} else {
+				deps[g.name()] = g.Schema(depth + 1)
+				g.feat("dependencies:schema")
+			}
+		}
+		if len(deps) >= 2 {
+			g.feat("dependencies:several")
 		}
 		s["dependencies"] = deps
 	}
